@@ -80,6 +80,8 @@ struct Sched {
     unsigned nochange_reports = 0;
     bool verbose = false;
     bool hb_on = false;
+    uint16_t lower[MAXT] = {};      // lower[t]: threads that must run before t is picked at a free choice
+    bool any_lower = false;
 };
 
 Sched S;
@@ -169,10 +171,35 @@ const char* kind_name( uint8_t k )
     return k < sizeof n / sizeof n[0] ? n[k] : "?";
 }
 
+// A value-changing step by the running thread: every *other* thread may now observe something new. The writer's
+// own flag is left alone: a loop whose only changes are its own (try_lock/unlock with nothing to do, ...) is still a
+// spin as far as the writer is concerned, and continuing it without anybody else moving costs a deviation.
 inline void mark_changed()
 {
-    for ( int i = 0; i < S.nthr; ++i ) S.thr[i].changed_since_report = true;
+    int me = tl_self ? tl_self->id : -1;
+    for ( int i = 0; i < S.nthr; ++i ) if ( i != me ) S.thr[i].changed_since_report = true;
     S.nochange_reports = 0;
+}
+
+// Fair scheduling of voluntary yields (after Musuvathi/Qadeer, "Fair stateless model checking"): a thread that
+// reports a back-off gets lower priority than every thread enabled at that moment until that thread has run a step.
+// Free choices (yield, block, exit) are made among the enabled threads that have no enabled thread above them, so
+// the explorer cannot starve a lock holder by bouncing between two spinners forever.
+inline void ran( int u )
+{
+    if ( !S.any_lower ) return;
+    uint16_t bit = uint16_t( 1u << u ), any = 0;
+    for ( int i = 0; i < S.nthr; ++i ) { S.lower[i] &= uint16_t( ~bit ); any |= S.lower[i]; }
+    S.any_lower = any != 0;
+}
+
+inline uint16_t fair_mask( uint16_t enabled )
+{
+    if ( !S.any_lower ) return enabled;
+    uint16_t m = 0;
+    for ( int i = 0; i < S.nthr; ++i )
+        if (( enabled & ( 1u << i )) && ( S.lower[i] & enabled ) == 0 ) m |= uint16_t( 1u << i );
+    return m ? m : enabled;
 }
 
 inline uint16_t runnable_mask()
@@ -292,7 +319,14 @@ unsigned decide( Reason r, unsigned n = 0 )
     }
 
     int selfcost = 0;
-    if ( r == R_YIELD ) selfcost = me->changed_since_report ? 0 : 1;
+    if ( r == R_YIELD ) {
+        selfcost = me->changed_since_report ? 0 : 1;
+        uint16_t others = uint16_t( mask & ~( 1u << me->id ));
+        if ( others ) { S.lower[me->id] |= others; S.any_lower = true; }
+        mask = uint16_t( fair_mask( mask ) | ( 1u << me->id ));
+    }
+    else if ( r == R_BLOCK )
+        mask = fair_mask( mask );
 
     bool has_dev = S.devpos < S.ndevs;
     if ( has_dev && S.devs[S.devpos].point < S.pointno )
@@ -305,8 +339,10 @@ unsigned decide( Reason r, unsigned n = 0 )
     bool at_start = me->at_start;
     if ( r == R_POINT ) me->at_start = false;
     // fast path: a plain point with no budget and no deviation scheduled here
-    if ( r == R_POINT && !dev_here && ( at_start || remaining <= 0 || ( mask & ~( 1u << me->id )) == 0 || has_dev ))
+    if ( r == R_POINT && !dev_here && ( at_start || remaining <= 0 || ( mask & ~( 1u << me->id )) == 0 || has_dev )) {
+        ran( me->id );
         return me->id;
+    }
 
     uint32_t opt[MAXT + 2]; uint8_t cost[MAXT + 2];
     uint32_t optbuf[64]; uint8_t costbuf[64];
@@ -339,6 +375,7 @@ unsigned decide( Reason r, unsigned n = 0 )
     if ( S.verbose && r != R_POINT )
         fprintf( stderr, "    [p%u t%d %s -> %u]\n", S.pointno, me->id, r == R_YIELD ? "yield" : r == R_BLOCK ? "block" : "choose", chosen );
     if ( r == R_CHOOSE ) return chosen;
+    if ( r == R_POINT ) ran( int( chosen ));     // the chosen thread executes its pending operation now
     if ( S.verbose && r == R_POINT && int( chosen ) != me->id )
         fprintf( stderr, "    [p%u t%d preempted -> t%u]\n", S.pointno, me->id, chosen );
     switch_to( int( chosen ));
@@ -775,6 +812,7 @@ void execute( cdsmc::Scenario const& sc, std::vector<Dev> const& devs, int bound
 {
     // reset
     S.nthr = 0; S.cur = 0; S.pointno = 0; S.steps = 0; S.explore_steps = 0; S.clock = 0;
+    memset( S.lower, 0, sizeof S.lower ); S.any_lower = false;
     S.ndevs = devs.size(); S.devpos = 0;
     if ( devs.size() > MAXDEVS ) die( 2, "too-many-deviations", "%zu deviations", devs.size());
     for ( size_t i = 0; i < devs.size(); ++i ) S.devs[i] = devs[i];
